@@ -1294,6 +1294,7 @@ hand-written model function, for every carrier — so every theorem above about 
 and an edit of the source that changes the meaning of a translated paragraph breaks the theorem named
 after it. -/
 section src
+set_option linter.unusedSectionVars false
 open ALV.C09.Src
 variable {α : Type}
 
@@ -1318,9 +1319,8 @@ theorem src_resolveStftObj_is_model : @ALV.Gen.C09.resolveStftObj α = resolveSt
 section gain
 variable [Add α] [Neg α] [Div α] [OfNat α 0] [OfNat α 1] [NatCast α] [LT α] [DecidableLT α] [DecidableEq α]
 
-omit [Div α] [OfNat α 1] [NatCast α] [DecidableEq α] in
 /-- `steps = Stream(wnd).map(abs).blocks(hop).map(tuple); gain = max(xmap(sum, xzip(*steps)))` -/
-theorem src_hopGain_is_model : (ALV.Gen.C09.hopGain : Nat → List α → Option α) = hopGain := hopGain_eq
+theorem src_hopGain_is_model : (ALV.Gen.C09.hopGain : Nat → List α → Option α) = hopGain := Src.hopGain_eq
 
 /-- the `if normalize:` paragraph -/
 theorem src_normWnd_is_model :
@@ -1331,16 +1331,14 @@ end gain
 section loop
 variable [Add α] [Mul α] [OfNat α 0]
 
-omit [Mul α] [OfNat α 0] in
 /-- the two slice assignments of one iteration (`mem[:s_h] = xmap(add, mem[hop:], blk)`,
 `mem[s_h:] = blk` on a block ITERATOR) -/
 theorem src_olaStep_is_model :
     (ALV.Gen.C09.olaStep : Nat → Nat → List α → List α → List α) = olaStep := olaStep_eq
 
-omit [Mul α] [OfNat α 0] in
 /-- the `for` loop with its size check and yields, and the flush after it -/
 theorem src_olaLoop_is_model :
-    (ALV.Gen.C09.olaLoop : Nat → Nat → List α → List (List α) → Out α) = olaLoop := olaLoop_eq
+    (ALV.Gen.C09.olaLoop : Nat → Nat → List α → List (List α) → Out α) = olaLoop := Src.olaLoop_eq
 
 /-- `if wnd:` (length check, `wnd + [0.]`, windowed blocks), `mem = [0.] * size`, the loop -/
 theorem src_olaCore_is_model :
